@@ -61,3 +61,19 @@ package chain
 //@ lemma [C17] changing-genesis-time-changes-the-hash: forall p uint32, g1 int, g2 int :: 0 <= g1 && g1 < 4294967297 && 0 <= g2 && g2 < 4294967297 && g1 != g2 ==> digest(256, cat(cat(nil, enc(1, 4, p)), enc(1, 8, g1))) != digest(256, cat(cat(nil, enc(1, 4, p)), enc(1, 8, g2)))
 //@ lemma [C17] changing-the-seed-changes-the-hash: forall pre bytes, s1 bytes, s2 bytes :: len(s1) == len(s2) && !bytesEq(s1, s2) ==> digest(256, cat(pre, s1)) != digest(256, cat(pre, s2))
 //@ lemma [C17] changing-the-period-changes-the-hash: forall p1 uint32, p2 uint32, g int, k bytes, s bytes :: p1 != p2 ==> digest(256, cat(cat(cat(cat(nil, enc(1, 4, p1)), enc(1, 8, g)), k), s)) != digest(256, cat(cat(cat(cat(nil, enc(1, 4, p2)), enc(1, 8, g)), k), s))
+
+// ---- C20 / C17: chain info wire form ---------------------------------------------------------------------------------------
+//@ func InfoFromProto(p) (i, err)
+//@   props C20 C17
+//@   requires p != nil
+//@   ensures [C20:decoded-chain-info-takes-its-fields-from-the-packet] err == nil ==> i != nil && i.GenesisTime == p.GenesisTime && i.GenesisSeed == p.GroupHash && (p.SchemeID != "" ==> i.Scheme == p.SchemeID) && i.ID == ite(p.Metadata == nil, "", p.Metadata.BeaconID) && pointVal(i.PublicKey) == p.PublicKey
+//@   ensures [C20:decoded-chain-info-period-is-the-packets-seconds] err == nil ==> i.Period == p.Period * 1000000000
+//@   ensures [C20:chain-info-with-an-unknown-scheme-is-rejected] p.SchemeID != "" && !crypto.knownScheme(p.SchemeID) ==> err != nil
+
+//@ func (*Info).ToProto(i, metadata) (r)
+//@   props C20 C17
+//@   requires [C20,C17] i.PublicKey != nil
+//@   modifies metadata.BeaconID, tr(all), hkind(all)
+//@   ensures [C20:chain-info-packet-carries-the-fields-of-the-info] r != nil && r.GenesisTime == i.GenesisTime && r.GroupHash == i.GenesisSeed && r.SchemeID == i.Scheme && r.PublicKey == marshalOf(i.PublicKey) && r.Metadata != nil && r.Metadata.BeaconID == i.ID
+//@   ensures [C17:chain-info-packet-carries-the-chain-hash-of-the-info] common.validPeriod(i.Period) ==> r.Hash == chainHashSpec(i)
+//@   ensures [C20:chain-info-packet-period-in-seconds] common.validPeriod(i.Period) ==> r.Period * 1000000000 == i.Period
